@@ -250,7 +250,9 @@ func NewWorld(p Params) *World {
 	}
 	w.God = w.Actors[0]
 	w.now = time.Unix(p.Start, 0).UTC()
-	time.Local = time.UTC
+	if time.Local != time.UTC { // (an unconditional write races with leftover tickers of earlier cases under -race)
+		time.Local = time.UTC
+	}
 	vclock.Reset()
 	vclock.DropWaiters()
 	vclock.Set(w.now)
@@ -350,9 +352,9 @@ func (r *Replica) Restart() error { return r.Start() }
 // enter switches the process to this replica's host environment (time zone).
 func (r *Replica) enter() {
 	if r.Loc != nil {
-		time.Local = r.Loc
+		setLocal(r.Loc)
 	} else {
-		time.Local = time.UTC
+		setLocal(time.UTC)
 	}
 }
 
@@ -367,26 +369,26 @@ func (r *Replica) CanPropose() bool {
 // Propose builds a block on the replica's head at the current virtual time.
 func (r *Replica) Propose() *types.BlockProposal {
 	r.enter()
-	defer func() { time.Local = time.UTC }()
+	defer setLocal(time.UTC)
 	return r.Chain.ProposeBlock([]byte{})
 }
 
 func (r *Replica) Validate(b *types.Block) error {
 	r.enter()
-	defer func() { time.Local = time.UTC }()
+	defer setLocal(time.UTC)
 	_, err := r.Chain.ValidateBlock(b, nil, collector.NewStatsCollector())
 	return err
 }
 
 func (r *Replica) AddBlock(b *types.Block) error {
 	r.enter()
-	defer func() { time.Local = time.UTC }()
+	defer setLocal(time.UTC)
 	return r.Chain.AddBlock(b, nil, collector.NewStatsCollector())
 }
 
 func (r *Replica) EmptyBlock() *types.Block {
 	r.enter()
-	defer func() { time.Local = time.UTC }()
+	defer setLocal(time.UTC)
 	return r.Chain.GenerateEmptyBlock()
 }
 
@@ -435,4 +437,11 @@ func SortedAddrs(m map[common.Address]struct{}) []common.Address {
 	}
 	sort.Slice(res, func(i, j int) bool { return string(res[i][:]) < string(res[j][:]) })
 	return res
+}
+
+// setLocal switches the host time zone; it writes only on change (reads do not race with reads under -race).
+func setLocal(loc *time.Location) {
+	if time.Local != loc {
+		time.Local = loc
+	}
 }
